@@ -296,6 +296,21 @@ func runC10(r *fw.Run) {
 	c10Volume(r, "tcp", 256<<10, r.Pick(100, 2000))
 	c10Volume(r, "unix", 100, r.Pick(20000, 400000))
 	r.Done(0)
+	// the peer disappears exactly while the accept loop is on its way back into Accept (controlled listener, see C15): the
+	// service must still be able to time out afterwards
+	for hi, steps := range [][]string{{"ccsd"}, {"connect", "abort", "ccsd"}, {"ccsd", "ccsd"}, {"connect", "call", "close", "ccsd"}, {"connect", "junk", "ccsd"}, {"connect", "fail", "ccsd"}, {"connect", "ccsd", "abort"}} {
+		for _, sp := range []bool{false, true} {
+			h := &c15Hist{Steps: steps, Socketpair: sp}
+			r.Journal(0, h)
+			for _, v := range runC15Hist(r, h) {
+				parts := strings.SplitN(v, "\x00", 2)
+				r.Violation("C10 timeout-after-aborts", fmt.Sprintf("history %v on a controlled listener (socketpair=%v): %s: %s", steps, sp, parts[0], parts[1]), h)
+			}
+			r.Done(0)
+			r.Count("disappear_inside_set_deadline_histories", 1)
+			r.Case(fw.Hash("ccsd", fmt.Sprint(hi, sp)), true)
+		}
+	}
 	// ... or to time out: a service with an idle timeout, hostile clients, then silence
 	g, err := newRig(r, RigOpt{Transport: "unix", Ifaces: c01Ifaces, Timeout: 300 * time.Millisecond})
 	if err != nil {
@@ -349,7 +364,7 @@ func replayC10(r *fw.Run, raw json.RawMessage) {
 func init() {
 	fw.Register(&fw.Engine{
 		ID: "C10", Level: "fault_enumeration",
-		Rule: "streams = valid call sequences (C01 generator), frame-level mutants (bit flips, deleted/inserted bytes, deleted and inserted NULs, structural bytes, wrong-shape JSON spliced in), wrong-shape frames (arrays, numbers, strings, booleans, null, objects with non-string method or non-boolean flags, case-variant and duplicate keys, trailing garbage, BOM, invalid UTF-8), shuffled and duplicated frames, random bytes, empty frames, a valid prefix followed by a tail without NUL. A case = (stream, abort offset k, abort style): EVERY k in 0..len(stream), once as 'write S[:k], half-close, read to EOF' (exact oracle: replies and handler log equal the sequential model applied to the complete frames of S[:k]; an invalid or wrong-shape frame ends the connection without reply or dispatch; null is answered like a call without method; the incomplete tail is never dispatched) and once as 'write S[:k] and close at once' (prefix oracle: dispatches are a prefix of the model's, each at most once). Every round of 48 aborts shares the service with a well-behaved connection running its own C01 script under the exact oracle. Plus aborts during multi-MiB replies/requests and 8 MiB frames without NUL. After each configuration: active-connection counter back to 0, Shutdown makes the serving call return nil; finally a service with a 300 ms idle timeout must stop with ServiceTimeoutError after hostile clients have gone. non-trivial = stream longer than one byte; distinct by (stream hash, offset, style). Also: every wrong-shape frame at least once between two valid calls; complete well-formed calls of 65 000 .. 1 MiB (thorough 3 MiB) judged exactly; rounds with a client that stalls (neither reads nor closes) in the middle of a 4 MiB reply; long-lived connections: 40 x 1 MiB calls and 40 x 1 MiB replies (thorough 4200 each: beyond 2^32 bytes per direction), 100 x 256 KiB over TCP, 20 000 (thorough 400 000) small calls, each answered exactly, then GetInfo; connections that the service ends (non-call frames, failing handler) while the client neither closes nor half-closes: released all the same; clients that pause 0.3 .. 2.5 s (thorough 12 s) in the middle of a frame are answered.",
+		Rule: "streams = valid call sequences (C01 generator), frame-level mutants (bit flips, deleted/inserted bytes, deleted and inserted NULs, structural bytes, wrong-shape JSON spliced in), wrong-shape frames (arrays, numbers, strings, booleans, null, objects with non-string method or non-boolean flags, case-variant and duplicate keys, trailing garbage, BOM, invalid UTF-8), shuffled and duplicated frames, random bytes, empty frames, a valid prefix followed by a tail without NUL. A case = (stream, abort offset k, abort style): EVERY k in 0..len(stream), once as 'write S[:k], half-close, read to EOF' (exact oracle: replies and handler log equal the sequential model applied to the complete frames of S[:k]; an invalid or wrong-shape frame ends the connection without reply or dispatch; null is answered like a call without method; the incomplete tail is never dispatched) and once as 'write S[:k] and close at once' (prefix oracle: dispatches are a prefix of the model's, each at most once). Every round of 48 aborts shares the service with a well-behaved connection running its own C01 script under the exact oracle. Plus aborts during multi-MiB replies/requests and 8 MiB frames without NUL. After each configuration: active-connection counter back to 0, Shutdown makes the serving call return nil; finally a service with a 300 ms idle timeout must stop with ServiceTimeoutError after hostile clients have gone. non-trivial = stream longer than one byte; distinct by (stream hash, offset, style). Also: every wrong-shape frame at least once between two valid calls; complete well-formed calls of 65 000 .. 1 MiB (thorough 3 MiB) judged exactly; rounds with a client that stalls (neither reads nor closes) in the middle of a 4 MiB reply; long-lived connections: 40 x 1 MiB calls and 40 x 1 MiB replies (thorough 4200 each: beyond 2^32 bytes per direction), 100 x 256 KiB over TCP, 20 000 (thorough 400 000) small calls, each answered exactly, then GetInfo; connections that the service ends (non-call frames, failing handler) while the client neither closes nor half-closes: released all the same; clients that pause 0.3 .. 2.5 s (thorough 12 s) in the middle of a frame are answered; peers that disappear while the accept loop is inside SetDeadline (controlled listener): the service still times out.",
 		Assumptions: []string{"frames with case-variant or duplicate known keys are judged for crash/dispatch-order/probe only (their meaning depends on decoder details the statement does not fix)", "unix-domain transports (filesystem and abstract)"},
 		Run:         runC10, Replay: replayC10, CrashIsViolation: true, MinEvals: 1000,
 		QuickTimeout: 15 * time.Minute, ThoroughTimeout: 60 * time.Minute,
